@@ -47,6 +47,42 @@ CHECKS["C10"] = dict(
     technique="Lean 4 proofs with the solver answer as a parameter + replay of captured solver answers through the model + clause evaluation on real runs",
     design="§7 C10, §11")
 
+CHECKS["C16"] = dict(
+    text="Machine-checked (Lean 4, core only) over a line-by-line model of tools/rect/pseudobool.py: for every Python expression tree "
+         "over Literal/Term/Expr/Ineq (+, -, int/float *, unary minus, the five comparisons, reflected operators, direct Ineq calls) the "
+         "value of the built object equals direct integer evaluation under every assignment, a built inequality holds iff the direct "
+         "comparison holds, and every Expr / Ineq.lhs is in normal form (positive coefficients, distinct variables) — invariant by "
+         "induction over the tree. Tied to the code on every run: thousands of random trees, structures (constant, ordered terms, "
+         "lhs/rhs/op) compared exactly with the model and all assignments of <= 6 variables evaluated on the implementation's objects.",
+    note="Model fidelity and Python operator dispatch checked by correspondence, not proved; nan/inf operands excluded; the code was "
+         "repaired first (fix: Expr.__mul__ constant), the model follows the repaired code.",
+    technique="Lean 4 proof over an executable model + differential run + exhaustive-assignment oracle", design="§7 C16")
+CHECKS["C07"] = dict(
+    text="Machine-checked (Lean 4) over models of satmanager.py, getrobdd/constructrobdd (both constructions, process-wide store "
+         "threaded explicitly) and isclause: pairwise and Heule at-most-one (all k >= 3, all lists), imply, ROBDD semantics and the "
+         "one-directional Tseitin encoding are exact; for ANY posting history of a manager (refusals and interleaving with other managers "
+         "sharing the store included) an assignment of the user variables extends to a model of the CNF iff it satisfies every accepted "
+         "constraint; refusal happens only for k < 3 and non-clause >,<,= inequalities (never silently dropped); the store invariant "
+         "(well-formed, append-only, no duplicates, meaning preserved) holds over all histories; solve/value/evalexpr are sound given a "
+         "correct solver. Tied to the code on every run: clause lists and store compared with the model after each posting, and every "
+         "assignment of <= 12 user variables pushed to the real pysat solver on the real clauses.",
+    note="SAT solver trusted (hypothesis SolverOK); user variable names must not start with robdd_/aux_/-; prioritize/setflipped "
+         "(deprecated) excluded; model fidelity sampled, not proved; code repaired first (fix: isclause strict bound 0).",
+    technique="Lean 4 invariant proofs over posting histories + clause/store correspondence + exhaustive assignment check with the real solver",
+    design="§7 C07")
+CHECKS["C08"] = dict(
+    text="Machine-checked (Lean 4) for the clause-level model of the repaired definecoords / enforce_bb / solve: on any product grid "
+         "of cells (any origin, spacing, size), for every k >= 1, every cost bound and EVERY model of the posted constraints, the search "
+         "admits exactly the k-box single-trunk orthogons (full rectangles, pairwise disjoint, each branch abutting the trunk on one side "
+         "within its extent: box_exact, attach_exact, shape_exact); solve returns a shape iff one meeting the bound exists and returns "
+         "exactly its boxes (solve_found_iff / _sound / insat_iff, solver as hypothesis). Tied to the code on every run: captured "
+         "constraint sets compared with the model, ALL models of the real CNF enumerated (pysat blocking clauses) against a brute-force "
+         "orthogon enumerator written from the property text, and rect.solve's return value checked.",
+    note="That the SAT layer encodes each posted constraint exactly is C07; SAT solver hypothesis; integer areas are inputs; select_box / "
+         "get_alloc checked on outputs only; min-error mode with ratio > 1 and non-zero occupied area; two repairs committed first "
+         "(grid limits, select_box snapping).",
+    technique="Lean 4 proof over linear orders + exhaustive model enumeration of the real CNF + constraint-set correspondence", design="§7 C08")
+
 NOT_APPLICABLE = {}
 
 def main():
